@@ -13,8 +13,8 @@ import CotengraVerif.Model.Net
   * `gather_slices` incl. `recursively_stack_chunks`            core.py:3295-3350
   * `gen_output_chunks`                                         core.py:3352-3409
 
-  Arrays are *functional*: a shape and an element function.  `Arr.add`, `Arr.stack`,
-  `Arr.select` are the model of `x + y`, `numpy.stack(arrays, axis)` and basic indexing
+  Arrays are *functional*: a shape and an element function.  `IArr.add`, `IArr.stack`,
+  `IArr.select` are the model of `x + y`, `numpy.stack(arrays, axis)` and basic indexing
   `x[(int | slice(None), ...)]`; they are trusted (validated against numpy by the harness).
 
   Core Lean only (the compiled driver links this file).
@@ -51,19 +51,19 @@ def le (a b : SliceInfo) : Bool :=
 end SliceInfo
 
 /-- An array as a total function on multi-indices, with its shape. -/
-structure Arr where
+structure IArr where
   shape : List Nat
   get : List Nat → Int
 
-namespace Arr
+namespace IArr
 
 /-- `x + y` for arrays of equal shape -/
-def add (a b : Arr) : Arr := { shape := a.shape, get := fun idx => a.get idx + b.get idx }
+def add (a b : IArr) : IArr := { shape := a.shape, get := fun idx => a.get idx + b.get idx }
 
-def zero : Arr := { shape := [], get := fun _ => 0 }
+def zero : IArr := { shape := [], get := fun _ => 0 }
 
 /-- `numpy.stack(arrays, axis)`: a new axis of length `len(arrays)` at position `axis`. -/
-def stack (arrs : List Arr) (axis : Nat) : Arr :=
+def stack (arrs : List IArr) (axis : Nat) : IArr :=
   { shape := ((arrs.head?.map (·.shape)).getD []).insertIdx axis arrs.length,
     get := fun idx => (arrs.getD (idx.getD axis 0) zero).get (idx.eraseIdx axis) }
 
@@ -77,11 +77,11 @@ def fill : List (Option Nat) → List Nat → List Nat
 
 /-- basic indexing `x[selector]` with one entry per axis: an int drops the axis,
     `slice(None)` keeps it -/
-def select (a : Arr) (sel : List (Option Nat)) : Arr :=
+def select (a : IArr) (sel : List (Option Nat)) : IArr :=
   { shape := (a.shape.zip sel).filterMap (fun p => if p.2.isNone then some p.1 else none),
     get := fun idx => a.get (fill sel idx) }
 
-end Arr
+end IArr
 
 namespace Slicing
 
@@ -219,7 +219,7 @@ def sliceSelectors (n : Net) (st : SliceState) (i : Nat) : List (Option (List (O
     if st.slicedInputs.contains c then some (selector key (n.term c)) else none
 
 /-- `slice_arrays(arrays, i)` -/
-def sliceArrays (n : Net) (st : SliceState) (arrays : List Arr) (i : Nat) : List Arr :=
+def sliceArrays (n : Net) (st : SliceState) (arrays : List IArr) (i : Nat) : List IArr :=
   let key := sliceKey st.slicedInds i
   (arrays.zip (List.range arrays.length)).map fun (a, c) =>
     if st.slicedInputs.contains c then a.select (selector key (n.term c)) else a
@@ -244,24 +244,24 @@ def chunkKey (sl : List SliceInfo) (opos : List (Ix × Nat)) (i : Nat) : List Na
   opos.map fun p => keyVal (sliceKey sl i) p.1
 
 /-- `chunks[key] = chunks[key] + s` / `chunks[key] = s` (core.py:3318-3321) -/
-def chunkAdd : List (List Nat × Arr) → List Nat → Arr → List (List Nat × Arr)
+def chunkAdd : List (List Nat × IArr) → List Nat → IArr → List (List Nat × IArr)
   | [], key, s => [(key, s)]
   | (k, a) :: rest, key, s =>
     if k = key then (k, a.add s) :: rest else (k, a) :: chunkAdd rest key s
 
 /-- the loop at core.py:3315 over `enumerate(slices)`, starting at slice number `i0` -/
 def buildChunksFrom (sl : List SliceInfo) (opos : List (Ix × Nat)) :
-    Nat → List Arr → List (List Nat × Arr) → List (List Nat × Arr)
+    Nat → List IArr → List (List Nat × IArr) → List (List Nat × IArr)
   | _, [], ch => ch
   | i, s :: rest, ch => buildChunksFrom sl opos (i + 1) rest (chunkAdd ch (chunkKey sl opos i) s)
 
-def buildChunks (sl : List SliceInfo) (opos : List (Ix × Nat)) (slices : List Arr) :=
+def buildChunks (sl : List SliceInfo) (opos : List (Ix × Nat)) (slices : List IArr) :=
   buildChunksFrom sl opos 0 slices []
 
-def chunkGet (ch : List (List Nat × Arr)) (loc : List Nat) : Option Arr := ch.lookup loc
+def chunkGet (ch : List (List Nat × IArr)) (loc : List Nat) : Option IArr := ch.lookup loc
 
 /-- all-or-nothing list of options -/
-def allSome : List (Option Arr) → Option (List Arr)
+def allSome : List (Option IArr) → Option (List IArr)
   | [] => some []
   | none :: _ => none
   | some a :: t => (allSome t).map (a :: ·)
@@ -274,20 +274,20 @@ def rangeOf (sl : List SliceInfo) (ix : Ix) : List Nat :=
 
 /-- `recursively_stack_chunks(loc, remaining)` (core.py:3334-3343); `none` is a `KeyError` of
     `chunks[loc]`.  The stacking axis is `output_pos[remaining[0]] - len(loc)`. -/
-def stackRec (sl : List SliceInfo) (ch : List (List Nat × Arr)) :
-    List (Ix × Nat) → List Nat → Option Arr
+def stackRec (sl : List SliceInfo) (ch : List (List Nat × IArr)) :
+    List (Ix × Nat) → List Nat → Option IArr
   | [], loc => chunkGet ch loc
   | (ix, pos) :: rem, loc =>
     (allSome ((rangeOf sl ix).map fun d => stackRec sl ch rem (loc ++ [d]))).map
-      fun arrs => Arr.stack arrs (pos - loc.length)
+      fun arrs => IArr.stack arrs (pos - loc.length)
 
 /-- `functools.reduce(add, slices)`; `none` for the empty sequence (`TypeError`) -/
-def reduceAdd : List Arr → Option Arr
+def reduceAdd : List IArr → Option IArr
   | [] => none
-  | s :: rest => some (rest.foldl Arr.add s)
+  | s :: rest => some (rest.foldl IArr.add s)
 
 /-- `gather_slices(slices)` without exponent stripping (core.py:3295-3350) -/
-def gatherSlices (output : List Ix) (sl : List SliceInfo) (slices : List Arr) : Option Arr :=
+def gatherSlices (output : List Ix) (sl : List SliceInfo) (slices : List IArr) : Option IArr :=
   let opos := outputPos sl output
   if opos.isEmpty then reduceAdd slices
   else stackRec sl (buildChunks sl opos slices) opos []
@@ -305,10 +305,10 @@ def chunkPlan (output : List Ix) (sl : List SliceInfo) (mult : Nat) :
 
 /-- `gen_output_chunks(arrays, with_key=True)` given the per-slice contraction -/
 def genOutputChunks (output : List Ix) (sl : List SliceInfo) (mult : Nat)
-    (contractSlice : Nat → Arr) : List (Arr × List (Ix × Nat)) :=
+    (contractSlice : Nat → IArr) : List (IArr × List (Ix × Nat)) :=
   (chunkPlan output sl mult).map fun (is, key) =>
     (match is with
-     | [] => Arr.zero
+     | [] => IArr.zero
      | i0 :: rest => rest.foldl (fun acc i => acc.add (contractSlice i)) (contractSlice i0), key)
 
 end Slicing
